@@ -1,0 +1,162 @@
+//go:build verif
+
+package lua
+
+// Read-only accessors used by the model-based verification harness in /verif.
+// Built only with -tags verif; nothing here changes interpreter behaviour.
+
+import "reflect"
+
+// VerifFrame is a copy of the observable fields of one call frame.
+type VerifFrame struct {
+	Idx        int
+	Base       int
+	LocalBase  int
+	ReturnBase int
+	NArgs      int
+	NRet       int
+	TailCall   int
+	Pc         int
+	IsG        bool
+	Proto      *FunctionProto
+}
+
+// VerifUpvalue is a copy of one entry of the open-upvalue list.
+type VerifUpvalue struct {
+	Index  int
+	Closed bool
+}
+
+// VerifSnap is the control skeleton of one thread.
+type VerifSnap struct {
+	Sp            int
+	Frames        []VerifFrame
+	Top           int
+	RegLen        int
+	RegCap        int
+	Open          []VerifUpvalue
+	PanicIsDflt   bool
+	HasErrorFunc  bool
+	Dead          bool
+	Wrapped       bool
+	HasParent     bool
+	IsCurrent     bool
+	AutoGrowStack bool
+}
+
+// VerifSnapshot copies the control skeleton of ls.
+func (ls *LState) VerifSnapshot() VerifSnap {
+	s := VerifSnap{
+		Sp:           ls.stack.Sp(),
+		Top:          ls.reg.top,
+		RegLen:       len(ls.reg.array),
+		RegCap:       cap(ls.reg.array),
+		HasErrorFunc: ls.hasErrorFunc,
+		Dead:         ls.Dead,
+		Wrapped:      ls.wrapped,
+		HasParent:    ls.Parent != nil,
+		IsCurrent:    ls.G.CurrentThread == ls,
+	}
+	_, s.AutoGrowStack = ls.stack.(*autoGrowingCallFrameStack)
+	if ls.Panic != nil {
+		s.PanicIsDflt = reflect.ValueOf(ls.Panic).Pointer() == reflect.ValueOf(panicWithTraceback).Pointer()
+	}
+	for i := 0; i < s.Sp; i++ {
+		cf := ls.stack.At(i)
+		f := VerifFrame{Idx: cf.Idx, Base: cf.Base, LocalBase: cf.LocalBase, ReturnBase: cf.ReturnBase,
+			NArgs: cf.NArgs, NRet: cf.NRet, TailCall: cf.TailCall, Pc: cf.Pc}
+		if cf.Fn != nil {
+			f.IsG = cf.Fn.IsG
+			f.Proto = cf.Fn.Proto
+		}
+		s.Frames = append(s.Frames, f)
+	}
+	for uv := ls.uvcache; uv != nil; uv = uv.next {
+		s.Open = append(s.Open, VerifUpvalue{Index: uv.index, Closed: uv.closed})
+	}
+	return s
+}
+
+// VerifStringConstants exposes the unexported string-constant table of a prototype.
+func (fp *FunctionProto) VerifStringConstants() []string { return fp.stringConstants }
+
+// VerifCallStack wraps a call-frame stack implementation for history replay.
+type VerifCallStack struct{ s callFrameStack }
+
+func VerifNewFixedStack(size int) *VerifCallStack {
+	return &VerifCallStack{newFixedCallFrameStack(size)}
+}
+func VerifNewAutoStack(size int) *VerifCallStack {
+	return &VerifCallStack{newAutoGrowingCallFrameStack(size)}
+}
+func (v *VerifCallStack) Push(tag int) { v.s.Push(callFrame{Pc: tag}) }
+func (v *VerifCallStack) Pop() (int, int) {
+	cf := v.s.Pop()
+	if cf == nil {
+		return -1, -1
+	}
+	return cf.Pc, cf.Idx
+}
+func (v *VerifCallStack) Last() (int, int) {
+	cf := v.s.Last()
+	if cf == nil {
+		return -1, -1
+	}
+	return cf.Pc, cf.Idx
+}
+func (v *VerifCallStack) At(i int) (int, int) { cf := v.s.At(i); return cf.Pc, cf.Idx }
+func (v *VerifCallStack) SetSp(sp int)        { v.s.SetSp(sp) }
+func (v *VerifCallStack) Sp() int             { return v.s.Sp() }
+func (v *VerifCallStack) IsFull() bool        { return v.s.IsFull() }
+func (v *VerifCallStack) IsEmpty() bool       { return v.s.IsEmpty() }
+func (v *VerifCallStack) FreeAll()            { v.s.FreeAll() }
+
+type verifRegHandler struct{ overflowed *bool }
+
+func (h verifRegHandler) registryOverflow() { *h.overflowed = true; panic("verif registry overflow") }
+
+// VerifRegistry wraps the register file implementation for history replay.
+type VerifRegistry struct {
+	r          *registry
+	Overflowed bool
+}
+
+func VerifNewRegistry(initialSize, growBy, maxSize int) *VerifRegistry {
+	v := &VerifRegistry{}
+	v.r = newRegistry(verifRegHandler{&v.Overflowed}, initialSize, growBy, maxSize, newAllocator(32))
+	return v
+}
+func (v *VerifRegistry) Push(x LValue)                       { v.r.Push(x) }
+func (v *VerifRegistry) Pop() LValue                         { return v.r.Pop() }
+func (v *VerifRegistry) Get(i int) LValue                    { return v.r.Get(i) }
+func (v *VerifRegistry) Set(i int, x LValue)                 { v.r.Set(i, x) }
+func (v *VerifRegistry) SetTop(i int)                        { v.r.SetTop(i) }
+func (v *VerifRegistry) CopyRange(regv, start, limit, n int) { v.r.CopyRange(regv, start, limit, n) }
+func (v *VerifRegistry) FillNil(regm, n int)                 { v.r.FillNil(regm, n) }
+func (v *VerifRegistry) Insert(x LValue, reg int)            { v.r.Insert(x, reg) }
+func (v *VerifRegistry) Top() int                            { return v.r.Top() }
+func (v *VerifRegistry) IsFull() bool                        { return v.r.IsFull() }
+func (v *VerifRegistry) Cap() int                            { return cap(v.r.array) }
+func (v *VerifRegistry) Raw(i int) LValue {
+	if i < 0 || i >= len(v.r.array) {
+		return nil
+	}
+	return v.r.array[i]
+}
+
+// VerifTableShape describes the internal structures of a table.
+type VerifTableShape struct {
+	Array, Dict, StrDict, Keys int
+	K2IConsistent              bool
+}
+
+// VerifShape reports sizes of the internal structures of tb and whether k2i inverts keys.
+func (tb *LTable) VerifShape() VerifTableShape {
+	s := VerifTableShape{Array: len(tb.array), Dict: len(tb.dict), StrDict: len(tb.strdict), Keys: len(tb.keys), K2IConsistent: true}
+	for i, k := range tb.keys {
+		if j, ok := tb.k2i[k]; !ok || j != i {
+			s.K2IConsistent = false
+		}
+	}
+	return s
+}
